@@ -91,6 +91,10 @@ def build_cases(spec):
             else:
                 files, main = {"main": layouts.canonical(lines)}, "main"
             out.append(("generated", files, main, None))
+        if spec["chunk"] < 4:
+            # root scripts that own no variable (their frame has zero words)
+            for files, main, kind in programs.no_variable_sources(r):
+                out.append(("generated", files, main, None))
         if spec["chunk"] < 2:
             # a line with 300 breakpoint sites, 260 labelled lines, a call chain 130 deep, 260 included files
             for files, main, kind in programs.scale_sources(r, small=True):
